@@ -136,6 +136,22 @@ Theorem c14_modulator_stream_wellformed : forall (junk : nat -> N) (cstate : Typ
 Proof. exact stream_wellformed. Qed.
 Print Assumptions c14_modulator_stream_wellformed.
 
+(** 7. What the consumer sees: for every schedule as in 6 and every interleaving of the modulator's puts with the
+    consumer's gets on the capacity-96 queue (hypothesis: put blocks), once the queue is drained the consumer
+    holds exactly the specification's session stream - nothing lost, duplicated or reordered. *)
+Theorem c14_consumer_receives_stream : forall (junk : nat -> N) (cstate : Type)
+  (codec2_encode : cstate -> list Z -> cstate * list N), codec2_ok codec2_encode ->
+  forall (dst src : list N), callsigns_ok dst src ->
+  forall (c0 : cstate) (sched : list item) (s' : mstate cstate) (out : list N),
+  run junk cstate codec2_encode (encode_callsign dst) (encode_callsign src) (minit junk cstate c0) sched = Some (s', out) ->
+  st_mode s' = IDLE ->
+  forall policy, policy = Blocks -> forall trace,
+  drained (qrun policy ConstsModulator.bitstream_queue_capacity out trace) ->
+  exists kus trailing, Forall keyup_ok kus /\ sched = session_items kus trailing
+    /\ delivered (qrun policy ConstsModulator.bitstream_queue_capacity out trace) = snd (session_stream cstate codec2_encode dst src c0 kus).
+Proof. exact consumer_receives_stream. Qed.
+Print Assumptions c14_consumer_receives_stream.
+
 (** conversely, every session of key-ups (any idle iterations, any number of samples while PTT is held, repeated
     key-ups, extra ptt_on() calls while active) is an enabled schedule, ends IDLE and emits [session_stream] *)
 Theorem c14_every_session_runs : forall (junk : nat -> N) (cstate : Type)
